@@ -36,11 +36,20 @@ NextHop(ip, now) ==
 Answers(ip) == \E i \in 1..Len(cfg.arp_delay) : cfg.arp_delay[i][1] = ip[4] /\ cfg.arp_delay[i][2] >= 0
 
 \* ---- what a delivered frame teaches / confirms
+V6 == "v6" \in DOMAIN cfg /\ cfg.v6
+Learn(lrn, ip, mac, now) == LET i == Idx(lrn, LAMBDA x : x.ip = ip) IN
+                            (IF i = 0 THEN lrn ELSE Remove(lrn, i)) \o <<[ip |-> ip, mac |-> mac, t |-> now]>>
 Teach(lrn, g, now) ==
   IF "et" \notin DOMAIN g THEN lrn
-  ELSE IF g.et = "arp" /\ g.tpa = cfg.my_ip /\ g.op \in {1, 2} /\ g.shau /\ OnLink(g.spa) /\ g.spa[4] \notin {0, 255} /\ g.spa # cfg.my_ip THEN
-       LET i == Idx(lrn, LAMBDA x : x.ip = g.spa) IN
-       (IF i = 0 THEN lrn ELSE Remove(lrn, i)) \o <<[ip |-> g.spa, mac |-> g.sha, t |-> now]>>
+  ELSE IF ~V6 /\ g.et = "arp" /\ g.tpa = cfg.my_ip /\ g.op \in {1, 2} /\ g.shau /\ OnLink(g.spa) /\ g.spa[4] \notin {0, 255} /\ g.spa # cfg.my_ip THEN
+       Learn(lrn, g.spa, g.sha, now)
+  \* neighbour discovery: a solicitation teaches its source, an advertisement its source or its target (the more
+  \* permissive reading); any unicast link-layer address option counts as validated
+  ELSE IF V6 /\ g.et = "arp" /\ g.op \in {1, 2} THEN
+       \* (a discovery message is an IP packet too: it confirms an existing entry for its source like any other)
+       LET l0 == [i \in 1..Len(lrn) |-> IF lrn[i].ip = g.spa /\ lrn[i].mac = g.smac THEN [lrn[i] EXCEPT !.t = now] ELSE lrn[i]]
+           l1 == IF g.shau /\ g.cs /\ g.spa # cfg.my_ip THEN Learn(l0, g.spa, g.sha, now) ELSE l0
+       IN IF g.shau /\ g.cs /\ "spa2" \in DOMAIN g /\ g.spa2 # cfg.my_ip /\ g.spa2 # g.spa THEN Learn(l1, g.spa2, g.sha, now) ELSE l1
   ELSE IF g.et = "ip4" /\ "src" \in DOMAIN g THEN
        [i \in 1..Len(lrn) |-> IF lrn[i].ip = g.src /\ lrn[i].mac = g.smac THEN [lrn[i] EXCEPT !.t = now] ELSE lrn[i]]
   ELSE lrn
@@ -79,7 +88,7 @@ OutStep(a, o, now) ==
            known == \E i \in 1..Len(a.lrn) : a.lrn[i].ip = nh /\ a.lrn[i].mac = o.dmac /\ now - a.lrn[i].t < 60000
            stale == \E i \in 1..Len(a.lrn) : a.lrn[i].ip = nh /\ a.lrn[i].mac = o.dmac
            n1 == P("N1", ~uni \/ nh = <<>> \/ known, <<o.dst, o.dmac, IF stale THEN "expired" ELSE IF ~o.dmu THEN "non-unicast-mac" ELSE "never-learned">>)
-           e3 == P("E3", o.src = cfg.my_ip /\ o.smac = cfg.my_mac, <<"ip", o.src>>)
+           e3 == P("E3", (o.src = cfg.my_ip \/ ("exempt" \in DOMAIN o /\ o.exempt)) /\ o.smac = cfg.my_mac, <<"ip", o.src>>)
            isMine == "l4" \in DOMAIN o /\ o.l4 = "udp" /\ o.did >= 0 /\ o.sport \in {6000, 6001}
        IN IF ~isMine THEN [a EXCEPT !.v = @ \o e2 \o n2 \o n1 \o e3]
           ELSE LET s == o.sport - 6000
